@@ -7,16 +7,16 @@ Core Lean only.  Support for `Properties/C01Concrete.lean`.
 
 `Lemmas/RunRoundTrip.lean` proves the whole-run round trip under `ProgramLaws` (pointwise laws
 about the environment), `Lemmas/Faithful.lean` identifies the contents under
-`ProgramFaithfulFrom`.  Here the environment is `Codecs.env dumps loadsText loadsBytes` (the six
+`ProgramFaithfulFrom`.  Here the environment is `Codecs.env dumps loadsText loadsBytes` (the
 executable codecs of `Model/Codecs.lean`, JSON still a parameter) and every one of these laws is
 *derived from the fact that the writer accepted the program*:
 
 * `JsonLaws`: the only hypothesis left about the environment (three facts about `json.dumps` /
   `json.loads`);
 * `lookup_of_encode`: a name the environment encodes with resolves through `Codecs.lookup`;
-* `Codec.nl_facts`: the encoded newlines of the six codecs;
+* `Codec.nl_facts`: the encoded newlines of the codecs;
 * `textLaws_of_prepared`: `TextLaws` from an accepted `_prepare_content` on a `str`;
-* `encChars_no13`, `guess_unix`: ASCII text without CR has no byte 13 in any of the six
+* `encChars_no13`, `guess_unix`: ASCII text without CR has no byte 13 in any of the
   encodings, hence `guess_line_endings` on the encoded bytes says "unix" (metadata sections carry
   no `line_endings` option);
 * `diff_prepared`: the newline of a diff section, computed from the codec (`diffNl`);
@@ -74,7 +74,7 @@ theorem lookup_of_encode (e : Name) (t : Text) (b : Bytes) (h : (env dj lt lb).e
     simp only [env, hc] at h
     cases h
 
-/-- the encoded newlines of the six codecs: `'\n'` / `'\r\n'` encode to the BOM followed by
+/-- the encoded newlines of the codecs: `'\n'` / `'\r\n'` encode to the BOM followed by
 `c.nl dos`; `strip_bom` removes exactly the BOM, and leaves a BOM-free newline alone (the writer
 strips the newline of a diff section twice); the byte 13 occurs in the CRLF only -/
 theorem Codec.nl_facts (c : Codec) (dos : Bool) :
@@ -129,7 +129,7 @@ def textLawsOf (st : St) (t : Text) (le : Option Text) (enc : Option Name) (leOu
     TextLaws (env dj lt lb) cfg st t le enc leOut :=
   TextLaws.ofFaithful _ _ st t le enc leOut eb heff (faithful dj lt lb _ c hc) (newlines dj lt lb _ c hc) plain hplain
 
-/-! ## ASCII text without CR: no byte 13 in any of the six encodings -/
+/-! ## ASCII text without CR: no byte 13 in any of the encodings -/
 
 theorem Codec.encChar_ascii (c : Codec) (ch : Nat) (h : ch < 128) (b : Bytes) (hb : c.encChar ch = some b) :
     ∀ x ∈ b, x = 0 ∨ x = ch.toUInt8 := by
@@ -149,6 +149,26 @@ theorem Codec.encChar_ascii (c : Codec) (ch : Nat) (h : ch < 128) (b : Bytes) (h
         · exact .inl rfl
         · exact .inr rfl
     · omega
+  have h32 : ∀ be, utf32Char be ch = some b → ∀ x ∈ b, x = 0 ∨ x = ch.toUInt8 := by
+    intro be hb x hx
+    obtain ⟨_, _, rfl⟩ := utf32Char_cases be ch b hb
+    have e0 : ch % 256 = ch := by omega
+    have e1 : ch / 256 % 256 = 0 := by omega
+    have e2 : ch / 65536 % 256 = 0 := by omega
+    have e3 : ch / 16777216 = 0 := by omega
+    cases be
+    · simp only [unit32, Bool.false_eq_true, if_false, e0, e1, e2, e3, List.mem_cons, List.not_mem_nil, or_false] at hx
+      rcases hx with rfl | rfl | rfl | rfl
+      · exact .inr rfl
+      · exact .inl rfl
+      · exact .inl rfl
+      · exact .inl rfl
+    · simp only [unit32, if_true, e0, e1, e2, e3, List.mem_cons, List.not_mem_nil, or_false] at hx
+      rcases hx with rfl | rfl | rfl | rfl
+      · exact .inl rfl
+      · exact .inl rfl
+      · exact .inl rfl
+      · exact .inr rfl
   cases c
   · intro x hx
     obtain ⟨_, rfl⟩ := asciiChar_cases ch b hb
@@ -168,6 +188,22 @@ theorem Codec.encChar_ascii (c : Codec) (ch : Nat) (h : ch < 128) (b : Bytes) (h
   · exact h16 false hb
   · exact h16 false hb
   · exact h16 true hb
+  · exact h32 false hb
+  · exact h32 false hb
+  · exact h32 true hb
+  · intro x hx
+    rcases utf8Char_cases ch b hb with ⟨_, rfl⟩ | ⟨h1, _, _⟩ | ⟨h1, _, _, _⟩ | ⟨h1, _, _⟩
+    · simp only [List.mem_cons, List.not_mem_nil, or_false] at hx
+      exact .inr hx
+    · omega
+    · omega
+    · omega
+  · intro x hx
+    rcases cp1252Char_cases ch b hb with ⟨_, rfl⟩ | ⟨p, hp, rfl, _⟩
+    · simp only [List.mem_cons, List.not_mem_nil, or_false] at hx
+      exact .inr hx
+    · have := (cp1252Table_rows p hp).2.2.2
+      omega
 
 theorem encChars_no13 (c : Codec) (t : Text) (a : Bytes) (h : encChars c.encChar t = some a)
     (hasc : ∀ ch ∈ t, ch < 128) (h13 : 13 ∉ t) : (13 : UInt8) ∉ a := by
@@ -205,7 +241,7 @@ theorem guessText_noCR (t : Text) (h13 : 13 ∉ t) : (guessText t).1 = false := 
   · rfl
 
 /-- **`guess_line_endings` on bytes without the byte 13 says "unix"**, whatever the codec: the
-CRLF of each of the six codecs contains the byte 13 -/
+CRLF of each of the codecs contains the byte 13 -/
 theorem guess_unix (e : Name) (c : Codec) (he : lookup e = some c) (ln : Nat) (plain : Bytes)
     (h13 : (13 : UInt8) ∉ plain) :
     Reader.guessLineEndings (env dj lt lb) cfg ln plain (some e) = .ok (false, c.nl false) := by
@@ -633,7 +669,7 @@ variable (dj : Json → EnvR Text) (lt : Text → EnvR Json) (lb : Bytes → Env
 /-! ## whole programs -/
 
 /-- **The laws of a program, and their faithfulness, from acceptance.**  For the environment made
-of the six codecs: whenever the constructor and every call were accepted, what was written fits
+of the codecs of `Model/Codecs.lean`: whenever the constructor and every call were accepted, what was written fits
 `fp.read`, and `dict` arguments are JSON objects, `ProgramLaws` holds and is faithful
 (`ProgramFaithfulFrom`) — under `JsonLaws` only. -/
 theorem laws_of_accepted (hjson : JsonLaws dj lt) (enc : Name) (calls : List Call)
@@ -648,7 +684,7 @@ theorem laws_of_accepted (hjson : JsonLaws dj lt) (enc : Name) (calls : List Cal
   exact ⟨⟨(nameOk_iff_not_refused enc).2 (init_ok_enc enc _ hinit), Ls⟩,
     programFaithful_any dj lt lb hjson calls _ hwf Ls⟩
 
-/-- **The whole-run round trip for the six codecs, no hypothesis about codecs.** -/
+/-- **The whole-run round trip for the concrete codecs, no hypothesis about codecs.** -/
 theorem run_concrete (hjson : JsonLaws dj lt) (chunk : Nat) (hc : 0 < chunk) (enc : Name) (calls : List Call)
     (hok : ∀ r ∈ (run (env dj lt lb) cfg (some enc) (Text.ofAscii b!"1.0") calls).2, r = .ok)
     (hwf : DictArgs calls)
